@@ -38,8 +38,10 @@ What is NOT taken from a model and why:
     The texts the session itself uses are the fixed table `sessionTextOf` below (session.py l.176-258; the
     certificate-stage and the authentication-stage failure share reason and, for a 1.0 request, header version:
     which of the two a connection can meet is decided by `Session.certStage`); for a request the engine rejects as a
-    whole the text is the message of `processRequest`'s `.rejected` (`ServerBytes.rejected_bytes`), recomputed here
-    from the decoded request (the rejection does not depend on the engine state: `ServerRun.rejection_state_independent`).
+    whole the text is the message of `processRequest`'s `.rejected` (`ServerBytes.rejected_bytes`), recomputed
+    along the events (`answersOf`; it does not depend on the engine state: `ServerRun.rejection_state_independent`).
+  * the version numbers echoed for a request whose protocol version is no member of KMIPVersion (`frameVersion`:
+    M14 keeps such a version as 0, the session echoes the client's numbers; read off the frame with M14's readers).
   * WORDING.  The engine model M5 abstracts the wording of most Result Messages of FAILED items and of the
     unsupported-version rejection (its own correspondence compares status, reason and data, and the message only for
     the "Could not locate object" family).  For the bytes, the text of a failed item whose model text differs from
